@@ -199,6 +199,17 @@ def check(ctx, requestor, mode, pending):
 
 
 def flush(ctx, pending):
+    # sync schedules must satisfy the hypothesis of the Lean theorem C05_defined_partial (runOk): then the theorem
+    # says the model's reactor survives them, and the lockstep comparison carries that over to the real one
+    sync = [c for c, _ in pending if c[3] == "sync"]
+    oks = ctx.lean([["dul.runok", c[1], c[2]] for c in sync])
+    n_ok = 0
+    for c, ok in zip(sync, oks):
+        if ok == "T" or ok is True:
+            n_ok += 1
+        else:
+            ctx.diff(c, "generated as sync-admissible", "Lean runOk = false", "sync schedule outside the theorem's hypothesis")
+    ctx.extra["sync_schedules_satisfying_runOk"] = ctx.extra.get("sync_schedules_satisfying_runOk", 0) + n_ok
     reps = ctx.lean([["dul.run", c[1], c[2]] for c, _ in pending])
     for (case, obs), rep in zip(pending, reps):
         if rep == "ERR:args":
